@@ -5,6 +5,7 @@
 extern "C" {
 void vf_assert(int cond, const char *msg);   // property assertion (may appear in any thread and in vf_check)
 void vf_reach(const char *msg);              // reachability witness: the solver must find an execution that gets here
+void vf_join(void);                          // merge point: thread paths arriving with the same live state share one continuation
 int nondet_int(void);
 unsigned nondet_uint(void);
 void __CPROVER_assume(int cond);
